@@ -535,3 +535,13 @@ Example hint_examples :
       [[97; 58; 48; 56; 48]; [116; 99; 112; 58; 91; 58; 58; 49; 93; 58; 55]; [105; 50; 112; 58; 97]; [120]; [97; 58; 49; 50; 51; 52; 53; 54]]
   = [[[1]; [97]; [80]]; [[1]; [58; 58; 49]; [7]]; [[3]; [97]; []]; [[0]]; [[0]]].
 Proof. vm_compute. reflexivity. Qed.
+
+(* ================================================================== 6. references that arrive as copies *)
+(* SturdyRef.setCopyableState takes exactly the translated `sturdyref_copied_fields` from the peer's state; every field
+   that identity depends on is among them, so a received reference is compared by the tub id and name it was sent with
+   (sturdy_eq quantifies over all records, however built) *)
+Lemma copy_carries_identity : forall f, In f sturdyref_distinguishers -> In f sturdyref_copied_fields.
+Proof.
+  unfold sturdyref_distinguishers, sturdyref_copied_fields. intros f H. cbn [In] in *.
+  repeat match goal with H : _ \/ _ |- _ => destruct H as [<-|H] end; tauto.
+Qed.
